@@ -137,7 +137,21 @@ def history_ops(ctx, rng, specs, spec, P_state):
                     elif op == "from_config-other":
                         MazeDataset.from_config(ocfg, load_local=False, save_local=False, do_download=False)
                     else:
-                        MazeDataset.generate(ocfg, gen_parallel=True, pool_kwargs=dict(processes=2))
+                        # a worker pool occasionally stalls on a loaded machine: bounded by an alarm, and then simply not part of the history
+                        import signal
+
+                        def _al(_s, _f):
+                            raise TimeoutError("pool stalled")
+
+                        old_h = signal.signal(signal.SIGALRM, _al)
+                        signal.alarm(90)
+                        try:
+                            MazeDataset.generate(ocfg, gen_parallel=True, pool_kwargs=dict(processes=2))
+                        except TimeoutError:
+                            ctx.tally("c04:pool-stalled(not judged)")
+                        finally:
+                            signal.alarm(0)
+                            signal.signal(signal.SIGALRM, old_h)
                 except ValueError:
                     pass
             elif op == "tokenize-shuffling":
